@@ -56,12 +56,36 @@ def run_replay(pid, path):
     c = ctxmod.Ctx(pid, rec.get('tier', 'quick'), rec.get('seed', 0), replay=True,
                    wall=600)
     mod.replay(c, rec['case'])
-    if c.violations:
-        for key, (n, ws) in c.violations.items():
+    known = findings.load(os.path.join(HERE, 'KNOWN_FINDINGS.txt'))
+    unlisted = {k: v for k, v in c.violations.items() if (pid, k) not in known}
+    for key, (n, ws) in c.violations.items():
+        if (pid, key) in known:
+            print('KNOWN-FINDING: property=%s key=%s observed=%d %s' % (pid, key, n, known[(pid, key)]))
+    if unlisted:
+        for key, (n, ws) in unlisted.items():
             print('replayed: key=%s detail=%s' % (key, json.dumps(ws[0]['detail'], default=repr)[:2000]))
         print('VIOLATION property=%s replay=%s' % (pid, os.path.abspath(path)))
         return 1
-    print('replay of %s: property held on this case' % path)
+    if c.inconclusive_reasons:
+        for r in c.inconclusive_reasons:
+            print('INCONCLUSIVE property=%s reason=%s' % (pid, r))
+        return 2
+    print('replay of %s: property held on this case%s' % (path, ' (known findings only)' if c.violations else ''))
+    if rec.get('shard') is not None and rec.get('nshards') and os.environ.get('PV_REPLAY_SHARD', '1') != '0':
+        # The case alone does not fail.  A violation may depend on what the same process executed BEFORE the case (state the
+        # library keeps between calls): re-execute the recorded shard - same tier, seed and partition, hence the same sequence
+        # of cases - and see whether the same mechanism fires again.
+        tier = rec.get('tier', 'quick')
+        wall = float(mod.PLAN[tier]['wall']) * 2
+        c2 = ctxmod.Ctx(pid, tier, rec.get('seed', 0), int(rec['shard']), int(rec['nshards']), wall)
+        print('re-executing shard %s/%s of the recorded %s run (seed %s) ...' % (rec['shard'], rec['nshards'], tier, rec.get('seed', 0)))
+        mod.run(c2)
+        if rec.get('key') in c2.violations and (pid, rec['key']) not in known:
+            n, ws = c2.violations[rec['key']]
+            print('replayed in context: key=%s observed=%d detail=%s' % (rec['key'], n, json.dumps(ws[0]['detail'], default=repr)[:2000]))
+            print('VIOLATION property=%s replay=%s' % (pid, os.path.abspath(path)))
+            return 1
+        print('re-execution of the shard: property held (mechanism %s not observed)' % rec.get('key'))
     return 0
 
 
@@ -190,7 +214,9 @@ def main(argv):
             path = os.path.join(OUT, 'replays', pid, name)
             with open(path, 'w') as f:
                 json.dump({'property': pid, 'key': key, 'tier': tier, 'seed': seed,
-                           'observed': n, 'case': w['case'], 'detail': w['detail']},
+                           'observed': n, 'case': w['case'], 'detail': w['detail'],
+                           # where in the recorded run it happened: lets a replay re-execute everything that ran before it
+                           'shard': w.get('where', {}).get('shard'), 'nshards': w.get('where', {}).get('nshards')},
                           f, indent=1, default=repr)
             print('  mechanism=%s observed=%d detail=%s' % (
                 key, n, json.dumps(w['detail'], default=repr)[:600]))
